@@ -473,6 +473,11 @@ def term_eq(a, b):
         return a.op == b.op and len(a.args) == len(b.args) and all(term_eq(x, y) for x, y in zip(a.args, b.args))
     if isinstance(a, tuple) and isinstance(b, tuple):
         return len(a) == len(b) and all(term_eq(x, y) for x, y in zip(a, b))
+    if isinstance(a, Opaque) and isinstance(b, Opaque):
+        # operands are copied when passed: abstract arguments are identified by type and label
+        if "term" in a.attrs or "term" in b.attrs:
+            return term_eq(a.attrs.get("term"), b.attrs.get("term"))
+        return a.ty == b.ty and a.label == b.label
     return a is b
 
 
@@ -611,6 +616,12 @@ def claim_ser_shapes(cx0, res, kf):
                 continue
             kind, payload = K.classify_return(eng, t)
             sers = [e for e in st.events if e[0] == "ser"]
+            if kind == "sym":
+                # the nested result is returned as it is: look at its Ok side
+                r, _ = res.solve(pc + [payload.discr == 0])
+                if r == z3.sat and payload.variants.get(0):
+                    pc = pc + [payload.discr == 0]
+                    kind, payload = "ok", payload.variants[0][0]
             if kind == "err" or (kind == "sym"):
                 # an error must be the error of a nested serialization
                 if not sers:
